@@ -188,6 +188,9 @@ func optSets() []optSet {
 			id := func(t lexer.Token) (lexer.Token, error) { return t, nil }
 			return []participle.Option{participle.Elide(k.elide...), participle.Map(id), participle.Upper("Ident"), participle.Map(id), participle.Unquote(k.strType), participle.Map(id)}
 		}},
+		{"Elide+CaseInsensitive", func(k lexKind) []participle.Option {
+			return []participle.Option{participle.Elide(k.elide...), participle.CaseInsensitive("Ident")}
+		}},
 		{"Elide+Map(err on c)", func(k lexKind) []participle.Option {
 			return []participle.Option{participle.Elide(k.elide...), participle.Map(func(t lexer.Token) (lexer.Token, error) {
 				if t.Value == "c" {
@@ -310,6 +313,7 @@ func runJob(w *hx.Worker, j job, maxLen int, only string) {
 	nShort := len(ins)
 	// a few longer inputs that contain several token types at once (identifier, string, number, comment)
 	ins = append(ins, `a "b" c`, `"x" y`, `a "b`, `b 1 "c" a`, "a \"b\"\n c", `c "c" c`)
+	ins = append(ins, "A b", "a B A", "B", strings.Repeat("a", 100)+" b", "b "+strings.Repeat("c", 5000), strings.Repeat("a ", 1100))
 	if j.k.name == "text/scanner" {
 		ins = append(ins, "a /* x */ \"b\"", "a // x\n b")
 	} else {
@@ -380,6 +384,10 @@ func runJob(w *hx.Worker, j job, maxLen int, only string) {
 					}},
 					{"Parse(bufio.Reader)", func() (*any, error) { return p.Parse(fn, bufio.NewReaderSize(strings.NewReader(in), 16), popt) }},
 					{"Parse(one byte at a time)", func() (*any, error) { return p.Parse(fn, iotest.OneByteReader(strings.NewReader(in)), popt) }},
+					{"Parse(last bytes together with io.EOF)", func() (*any, error) { return p.Parse(fn, iotest.DataErrReader(strings.NewReader(in)), popt) }},
+					{"Parse(one byte at a time, last one with io.EOF)", func() (*any, error) {
+						return p.Parse(fn, iotest.DataErrReader(iotest.OneByteReader(strings.NewReader(in))), popt)
+					}},
 				}
 				var results []result
 				var recorded [][]lexer.Token
@@ -404,6 +412,21 @@ func runJob(w *hx.Worker, j job, maxLen int, only string) {
 						w.Violate(hx.Violation{Key: key, Class: "entry-points-disagree:" + eps[i].name, Detail: map[string]any{"ParseString": a.String(), eps[i].name: b.String()}})
 						bad = true
 						break
+					}
+				}
+				if !bad && ii >= nShort && fn == "f" && !at && rec == nil {
+					// whichever entry point is the FIRST call on a parser gives what it gives as a later call
+					for i := 1; i < len(eps) && !bad; i++ {
+						pan, msg := hx.Guard(func() { p, err = participle.Build[any](opts...) })
+						if pan || err != nil {
+							w.Violate(hx.Violation{Key: desc, Class: "build-failed", Detail: map[string]any{"err": fmt.Sprint(err), "panic": msg}})
+							return
+						}
+						w.Count("evaluations", 1)
+						if r := capture(eps[i].f); r != results[i] {
+							w.Violate(hx.Violation{Key: key, Class: "entry-points-disagree:" + eps[i].name + " as the first call on a parser", Detail: map[string]any{"as_first_call": r.String(), "as_later_call": results[i].String()}})
+							bad = true
+						}
 					}
 				}
 				if bad {
